@@ -25,7 +25,7 @@ def main():
                 r = sh('./check', p, '--tier', tier, '--seed', seed, cwd=V)
                 sigs = re.findall(r'^\s+signature: (.*)$', r.stdout, flags=re.M)
                 viol = re.findall(r'^VIOLATION property=(\S+)', r.stdout, flags=re.M)
-                broken = 'BROKEN' in r.stdout or r.returncode == 2
+                broken = r.returncode == 2
                 key = '%s/%s/seed%s' % (p, tier, seed)
                 results[key] = {'exit': r.returncode, 'violations': len(viol), 'signatures': sigs[:8], 'broken': broken}
                 line = [l for l in r.stdout.splitlines() if ' tier=' in l]
